@@ -8,7 +8,7 @@ Model of the template loader over an ORDERED LIST of user template directories (
 * `DSDLTemplateLoader.__init__`: which of the two Jinja loaders exist for (templates_dirs, package, search policy);
 * `DSDLTemplateLoader.type_to_template` over such a loader (`lookupDirs`): the stem -> path dict is built from the
   package listing, then updated with the file-system listing;
-* `DSDLTemplateLoader.get_templates` (feeds `--list-inputs`): `glob("**/*.j2")` under EVERY search path plus the
+* `DSDLTemplateLoader.get_templates` (part of what `--list-inputs` reports, through `get_template_inputs`): `glob("**/*.j2")` under EVERY search path plus the
   suffix-filtered package listing.
 
 A user directory is a `Store` (relative name ↦ content id) of the regular files `os.walk` reaches, i.e. no file below a
